@@ -92,7 +92,24 @@ def _gen_sum(r, nvars, cmax):
     return t
 
 
+def _gen_huge_pb(r, nvars):
+    """Few terms with coefficients around a large power of two (the decision diagram stays tiny, the arithmetic does not)."""
+    k = r.randint(20, 62)
+    def coef():
+        return (1 << k) + r.choice([-1, 0, 1]) if r.chance(0.7) else r.randint(1, 1 << k)
+    n = r.randint(2, min(4, nvars + 1))
+    t = None
+    for _ in range(n):
+        v, s_ = _gen_lit(r, nvars)
+        leaf = ["term", v, s_, coef()]
+        t = leaf if t is None else ["add", t, leaf]
+    bound = coef() + r.choice([0, 1, (1 << k) // 2])
+    return {"op": "pb", "lhs": t, "rhs": ["const", bound], "cmp": r.choice([">=", "<="]), "cd": r.chance(0.7), "style": r.below(4)}
+
+
 def _gen_pb(r, nvars):
+    if r.chance(0.06):
+        return _gen_huge_pb(r, nvars)
     cmax = r.choice([1, 2, 3, 5, 9])
     if r.chance(0.5):
         lhs = _gen_sum(r, nvars, cmax)
